@@ -662,6 +662,7 @@ async fn stalled_topic(pki: &Pki) -> Outcome {
     }
     tokio::time::sleep(Duration::from_millis(2500)).await;
     // another topic must still work: on a brand-new connection, on a connection that also queued on the stalled topic, and on the one whose publishers are stuck there
+    let mut kept = Vec::new();
     for (who, client) in [("a new connection", step!("C17", "connect", lib_connect(pki, addr, 0).await)), ("a connection that also registered on the stalled topic", fillers[0].clone()), ("the connection whose six publishers are blocked on the stalled topic", cflood.clone())] {
         let other = format!("/stall/other-{}", who.len());
         let mut sub = match tokio::time::timeout(STEP, client.subscriber(&other).with_decoder(StringCodec).open()).await {
@@ -679,6 +680,21 @@ async fn stalled_topic(pki: &Pki) -> Outcome {
         match within!("C17", format!("a message on {other} while another topic is stalled ({who})"), sub.next()) {
             Some(Ok(m)) if m == "hello" => {}
             o => return fail("C17", format!("on {other} the subscriber received {o:?}")),
+        }
+        kept.push((who, other, sub, p));
+    }
+    // ... and keeps working: the streams opened above are still served a while later (the stall lasts, the queue on the stalled topic
+    // stays full; nothing the server does about THAT topic may cost these streams their connection)
+    tokio::time::sleep(Duration::from_millis(6000)).await;
+    for (who, other, sub, p) in kept.iter_mut() {
+        match tokio::time::timeout(STEP, p.send("still there".to_string())).await {
+            Ok(Ok(())) => {}
+            Ok(Err(e)) => return fail("C17", format!("six seconds into the stall of another topic, publishing on {other} ({who}) failed: {e:?}")),
+            Err(_) => return fail("C17", format!("six seconds into the stall of another topic, publishing on {other} ({who}) never returned")),
+        }
+        match within!("C17", format!("a message on {other} six seconds into the stall of another topic ({who})"), sub.next()) {
+            Some(Ok(m)) if m == "still there" => {}
+            o => return fail("C17", format!("six seconds into the stall of another topic, the subscriber on {other} ({who}) received {o:?}")),
         }
     }
     for p in pending {
